@@ -332,6 +332,32 @@ def clause_rollback_releases(prog, rep):
     rep.floor("rollback-discards-suffix", "manager functions performing a storage rollback", n, 1)
 
 
+def clause_memory_rollback_consumes(prog, rep, rule="rollback-discards-suffix"):
+    """the manager treats the snapshot a rollback restored from as gone (it never releases it); the SQLite backend deletes its rows during
+    the restore.  The memory backend has to agree: what rollback_group_to_snapshot restores is *taken out of* the snapshot table
+    (HashMap::remove), not read from it — otherwise every rollback leaves one stored snapshot that nothing will ever release"""
+    fs = [g for g in prog.find(name="rollback_group_to_snapshot", crate="mdk_memory_storage") if not g.is_closure() and "MdkStorageProvider" in g.path]
+    rep.floor(rule, "memory MdkStorageProvider::rollback_group_to_snapshot", len(fs), 1)
+    for f in fs:
+        fam = prog.family(f)
+        takes = [c for g in fam for c in g.live_calls() if c.name in ("remove", "remove_entry", "take", "pop")
+                 and "GroupScopedSnapshot" in " ".join([c.self_ty or ""] + [str(x) for x in (c.gen or [])])]
+        restored_from_take = False
+        for g in fam:
+            for c in g.live_calls():
+                if any(t.crate == "mdk_memory_storage" and any("GroupScopedSnapshot" in t.locals[i] for i in range(1, t.nargs + 1)) for t in prog.call_targets(c)):
+                    for a in c.args:
+                        if "p" in a and "GroupScopedSnapshot" in g.locals[a["p"][0]]:
+                            og = A.origins(prog, g, a["p"][0], scope=set(q.path for q in fam), max_frames=2)
+                            if any(og.has_call(lambda y, t_=t_: y is t_) for t_ in takes):
+                                restored_from_take = True
+        rep.check(bool(takes) and restored_from_take, rule, "memory/rollback_group_to_snapshot/consumes-the-snapshot",
+                  "the snapshot the memory backend restores from is removed from the snapshot table by the rollback",
+                  "the memory backend restores from a snapshot it leaves in the table (read / cloned, not removed): the manager considers it "
+                  "consumed and never releases it, so stored snapshots outgrow the retention bound (and the SQLite backend, which deletes "
+                  "the rows, disagrees)", f.loc())
+
+
 def clause_age_preserved(prog, rep, sites):
     """the TTL prune goes by the row's created_at: a rollback must hand the surviving snapshots back with the created_at they had,
     otherwise every rollback rejuvenates them and snapshots older than the TTL are kept"""
@@ -452,6 +478,7 @@ def run(ctx, rep):
     clause_who_creates(prog, rep)
     clause_prune_after_push(prog, rep)
     clause_rollback_releases(prog, rep)
+    clause_memory_rollback_consumes(prog, rep)
     clause_ttl(prog, rep, sites)
     clause_age_preserved(prog, rep, sites)
     clause_list_oldest_first(prog, rep, sites)
